@@ -26,6 +26,9 @@ type Runner struct {
 	ModRoot string // scratch copy root, to relativise file names in race reports
 	Stats   *Stats
 	seq     int64
+	// Determinism: run every case three times (GOMAXPROCS 1/4/16) and compare
+	Determinism bool
+	DetCompared int64
 }
 
 type InfraError struct{ Msg string }
@@ -40,6 +43,67 @@ func infra(format string, a ...any) {
 // control (watchdog, unparsable output): such conditions are exit 2, never a
 // violation.
 func (r *Runner) Run(c *casefmt.Case, race bool) *casefmt.Obs {
+	if !r.Determinism {
+		return r.run1(c, race, envOr("VERIF_CHILD_GOMAXPROCS", "2"))
+	}
+	// determinism self-test: the same case in three fresh processes under
+	// different GOMAXPROCS must give the same decision trace, event log and
+	// observation
+	first := r.run1(c, race, "1")
+	want := normObs(first)
+	for _, procs := range []string{"4", "16"} {
+		o := r.run1(c, race, procs)
+		if got := normObs(o); got != want {
+			dump := filepath.Join(r.TmpDir, fmt.Sprintf("nondeterminism-%d.txt", os.Getpid()))
+			cb, _ := json.Marshal(c)
+			os.WriteFile(dump, []byte("CASE\n"+string(cb)+"\nGOMAXPROCS=1\n"+want+"\nGOMAXPROCS="+procs+"\n"+got+"\n"), 0o644)
+			if keep := os.Getenv("VERIF_KEEP_DIR"); keep != "" {
+				os.MkdirAll(keep, 0o755)
+				os.WriteFile(filepath.Join(keep, filepath.Base(dump)), []byte("CASE\n"+string(cb)+"\nGOMAXPROCS=1\n"+want+"\nGOMAXPROCS="+procs+"\n"+got+"\n"), 0o644)
+			}
+			infra("determinism self-test failed: the same case gave different observations under GOMAXPROCS=1 and %s (dump: %s): %s", procs, dump, firstDiff(want, got))
+		}
+		atomic.AddInt64(&r.DetCompared, 1)
+	}
+	return first
+}
+
+var reAddr = regexp.MustCompile(`0x[0-9a-f]{6,}`)
+
+// normObs renders an observation without wall-clock time and addresses.
+func normObs(o *casefmt.Obs) string {
+	c := *o
+	c.WallMs = 0
+	c.Stderr = ""
+	c.RaceTexts = nil
+	b, _ := json.Marshal(&c)
+	return reAddr.ReplaceAllString(string(b), "0xADDR")
+}
+
+func firstDiff(a, b string) string {
+	n := len(a)
+	if len(b) < n {
+		n = len(b)
+	}
+	i := 0
+	for i < n && a[i] == b[i] {
+		i++
+	}
+	lo := i - 80
+	if lo < 0 {
+		lo = 0
+	}
+	hiA, hiB := i+120, i+120
+	if hiA > len(a) {
+		hiA = len(a)
+	}
+	if hiB > len(b) {
+		hiB = len(b)
+	}
+	return fmt.Sprintf("at byte %d: %q vs %q", i, a[lo:hiA], b[lo:hiB])
+}
+
+func (r *Runner) run1(c *casefmt.Case, race bool, gomaxprocs string) *casefmt.Obs {
 	bin := r.Plain
 	if race {
 		bin = r.Race
@@ -63,7 +127,7 @@ func (r *Runner) Run(c *casefmt.Case, race bool) *casefmt.Obs {
 	ctx, cancel := context.WithTimeout(context.Background(), 120*time.Second)
 	defer cancel()
 	cmd := exec.CommandContext(ctx, bin, path)
-	cmd.Env = append(os.Environ(), "GORACE=halt_on_error=0 atexit_sleep_ms=0 history_size=2", "GOMAXPROCS="+envOr("VERIF_CHILD_GOMAXPROCS", "2"), "GOTRACEBACK=single")
+	cmd.Env = append(os.Environ(), "GORACE=halt_on_error=0 atexit_sleep_ms=0 history_size=2", "GOMAXPROCS="+gomaxprocs, "GOTRACEBACK=single")
 	var stdout, stderr bytes.Buffer
 	cmd.Stdout = &stdout
 	cmd.Stderr = &stderr
